@@ -309,7 +309,9 @@ def token_case(draw, tier="quick"):
                          min_size=n, max_size=n))
     if draw(st.booleans()):
         toks = [t for t in toks if t in GOOD_TOK] or ["mean"]
-    return {"tokens": toks, "key": draw(st.sampled_from(["suspect_min", "suspect_max", "fail_min", "fail_max"]))}
+    return {"tokens": toks, "key": draw(st.sampled_from(["suspect_min", "suspect_max", "fail_min", "fail_max"])),
+            # further (valid) test sections carrying the same entry names, before and after the one under test
+            "before": draw(st.integers(0, 2)), "after": draw(st.integers(0, 2))}
 
 
 def tok_ok(t):
@@ -323,10 +325,18 @@ def check_tokens(case, rec):
     real = text.split(" ")
     unj = [t for t in real if not tok_ok(t) and _floatable(t)]
     near = [t for t in real if not tok_ok(t) and not _floatable(t)]
-    rec.note(bool(near), (["near_miss"] if near else ["all_tokens_valid"]) + (["unjudged_float_spelling"] if unj else []))
+    rec.note(bool(near), (["near_miss"] if near else ["all_tokens_valid"]) + (["unjudged_float_spelling"] if unj else []) +
+             (["several_sections"] if case.get("before", 0) + case.get("after", 0) else []))
     spec = {"suspect_min": "1", "suspect_max": "2", "fail_min": "0", "fail_max": "3"}
     spec[case["key"]] = text
-    cfg = var_config({"gross_range_test": spec})
+    ok = {"suspect_min": "min - 1", "suspect_max": "max + 1", "fail_min": "min - 2 * std", "fail_max": "( max + 2 ) * 1"}
+    tests = {}
+    for i in range(case.get("before", 0)):
+        tests[f"other_test_{i}"] = dict(ok)
+    tests["gross_range_test"] = spec
+    for i in range(case.get("after", 0)):
+        tests[f"later_test_{i}"] = dict(ok)
+    cfg = var_config(tests)
     site = "QcVariableConfig"
     if near:
         rec.expect_raises(site, (ValueError,), QcVariableConfig, cfg)
